@@ -1114,7 +1114,7 @@ CHILD_CMD = [core.PY, "-m", "harness.engines.hashing", "child"]
 
 def run_child(jobs: list[dict], seed: int, moddir: Path, timeout: int = 600) -> list[dict]:
     """jobs: {"spec":…, "pickle": bool, "want_case": bool}; answers: {"hex": … , "case": …|None}"""
-    env = core.impl_env({"PYTHONHASHSEED": seed, "VERIF_HASH_MODDIR": str(moddir)})
+    env = core.impl_env({"PYTHONHASHSEED": seed, "VERIF_HASH_MODDIR": str(moddir), "VERIF_CNT": str(Path(moddir).parent / "count.txt")})
     inp = "".join(json.dumps(j) + "\n" for j in jobs)
     p = subprocess.run(CHILD_CMD, input=inp, capture_output=True, text=True, env=env, cwd=str(core.VERIF), timeout=timeout)
     lines = [l for l in p.stdout.splitlines() if l.startswith("{")]
@@ -1135,9 +1135,7 @@ def child_main():
         try:
             b = Builder(moddir)
             if "task" in job:
-                from harness.engines import hashing as H
-
-                ans = H.child_task(job, b)
+                ans = child_task(job, b)
             else:
                 v = b.build(job["spec"])
                 if job.get("pickle"):
@@ -1180,12 +1178,157 @@ def validate_blake2b(ctx, n: int = 40) -> bool:
 
 
 # --------------------------------------------------------------------------------------------------------------
-# tasks (C06 / C07): see harness/props/C06.py for the pair generator; the child-side runner lives here so that child
-# processes only import this module
+# tasks (C06 / C07): task specs, builders, the model's view of a task, and the child-side runner
+
+
+def task_def_case(t):
+    """The Lean model's view of what `_compute_hashes` looks at: {"ttype", "fields": [{name, value|null, out, container_path}],
+    "outputs": case}.  None when some value is outside the model."""
+    import attrs as _attrs
+
+    from pydra.compose.base import Out
+    from pydra.utils.general import get_fields
+
+    c = Caser()
+    fields = []
+    try:
+        for f in get_fields(t):
+            v = getattr(t, f.name)
+            fields.append(
+                {
+                    "name": f.name,
+                    "value": None if v is _attrs.NOTHING else c.case(v),
+                    "out": isinstance(f, Out),
+                    "container_path": bool(getattr(f, "container_path", False)),
+                }
+            )
+        return {"ttype": t._task_type(), "fields": fields, "outputs": c.case(t.Outputs)}
+    except Unsupported:
+        return None
+
+
+PY_TASK_HEAD = "import os\nimport typing as ty\nfrom pydra.compose import python, shell, workflow\n\n"
+
+
+def python_task_source(s) -> str:
+    """{"kind":"python","params":[names],"body":[lines],"ret":"int","closure":{var: int}|None,"globals":{var:int}|None,"name":str}
+    The body may use COUNT() to record one execution in the file named by $VERIF_CNT."""
+    params = ", ".join(f"{p}: ty.Any" for p in s["params"])
+    body = "\n".join("    " + ln for ln in s["body"])
+    glob = "".join(f"{g} = {v!r}\n" for g, v in (s.get("globals") or {}).items())
+    fn = f"@python.define\ndef {s.get('name', 'T')}({params}) -> {s.get('ret', 'ty.Any')}:\n    COUNT()\n{body}\n"
+    count = "def COUNT():\n    with open(os.environ['VERIF_CNT'], 'a') as f:\n        f.write('x')\n\n\n"
+    if s.get("closure"):
+        fn = "".join("    " + ln + "\n" for ln in fn.splitlines())
+        return PY_TASK_HEAD + count + glob + f"def make({', '.join(s['closure'])}):\n{fn}    return {s.get('name', 'T')}\n"
+    return PY_TASK_HEAD + count + glob + fn
+
+
+def _module_from_source(src: str, moddir: Path, prefix="vt_"):
+    name = prefix + hashlib.sha1(src.encode()).hexdigest()[:16]
+    moddir.mkdir(parents=True, exist_ok=True)
+    f = moddir / f"{name}.py"
+    if not f.exists():
+        f.write_text(src)
+    if str(moddir) not in sys.path:
+        sys.path.insert(0, str(moddir))
+    importlib.invalidate_caches()
+    if name in sys.modules:
+        return sys.modules[name]
+    return importlib.import_module(name)
+
+
+def build_task(s, b: "Builder"):
+    """task spec -> task object (class built through the public API)"""
+    kind = s["kind"]
+    inputs = {n: b.build(v) for n, v in (s.get("inputs") or {}).items()}
+    if kind == "python":
+        mod = _module_from_source(python_task_source(s), b.moddir)
+        for g, v in (s.get("globals") or {}).items():
+            setattr(mod, g, v)
+        cls = mod.make(*s["closure"].values()) if s.get("closure") else getattr(mod, s.get("name", "T"))
+        return cls(**inputs)
+    if kind == "shell":
+        from pydra.compose import shell
+
+        ins = []
+        for f in s["fields"]:
+            kw = {k: v for k, v in f.items() if k not in ("formatter", "type")}
+            kw["type"] = eval(f.get("type", "str"), {"ty": ty})
+            if f.get("formatter"):
+                kw["formatter"] = getattr(_module_from_source(FORMATTERS_SRC, b.moddir, "vf_"), f["formatter"])
+            ins.append(shell.arg(**kw))
+        cls = shell.define(s["exe"], inputs=ins, xor=[list(g) for g in s.get("xor", [])] or None, name=s.get("name", "S")) if s.get("xor") else shell.define(s["exe"], inputs=ins, name=s.get("name", "S"))
+        t = cls(**inputs)
+        if s.get("split"):
+            t = t.split(**{n: b.build(v) for n, v in s["split"].items()})
+        return t
+    if kind == "workflow":
+        mod = _module_from_source(WORKFLOW_SRC, b.moddir, "vw_")
+        return mod.make(s["n"])(**inputs)
+    raise ValueError(kind)
+
+
+FORMATTERS_SRC = "def fmt_x(p):\n    return f'-x {p}'\n\n\ndef fmt_y(p):\n    return f'-y {p}'\n"
+
+WORKFLOW_SRC = (
+    PY_TASK_HEAD
+    + "@python.define\ndef Inc(x: int) -> int:\n    return x + 1\n\n\n"
+    + "def make(n):\n    @workflow.define\n    def V(x: int) -> int:\n        cur = x\n        for i in range(n):\n"
+    + "            node = workflow.add(Inc(x=cur), name=f'n{i}')\n            cur = node.out\n        return cur\n\n    return V\n"
+)
+
+
+def run_task(t, cache_root: Path, worker: str = "debug"):
+    """run a task; returns (outputs as canonical dict | '!Exc', error detail)"""
+    try:
+        o = t(cache_root=cache_root, worker=worker)
+    except Exception as e:
+        return "!" + core.exc_tag(e), str(e)[:300]
+    from pydra.utils.general import get_fields
+
+    out = {}
+    for f in get_fields(o):
+        v = getattr(o, f.name)
+        if f.name in ("stderr", "return_code"):
+            continue
+        out[f.name] = v if isinstance(v, (int, str, bool, type(None))) else repr(v)
+    return out, ""
+
+
+def job_dirs(cache_root: Path) -> list[str]:
+    p = Path(cache_root)
+    if not p.exists():
+        return []
+    return sorted(d.name for d in p.iterdir() if d.is_dir() and re.match(r"^[a-z]+-[0-9a-f]{32}$", d.name))
 
 
 def child_task(job, b: "Builder"):
-    raise NotImplementedError
+    """job: {"task": spec, "run": {"cache_root": str, "worker": str}|None, "hash_value": bool, "want_case": bool}"""
+    hc = Path(os.environ["VERIF_HASH_MODDIR"]).parent / "hashcache"
+    hc.mkdir(exist_ok=True)
+    os.environ["PYDRA_HASH_CACHE"] = str(hc)
+    t = build_task(job["task"], b)
+    ans = {"hex": None, "case": None}
+    try:
+        ans["checksum"] = t._checksum
+    except Exception as e:
+        ans["checksum"] = "!" + core.exc_tag(e)
+    if job.get("hash_value"):
+        ans["hex"] = impl_hash(t)
+        if job.get("want_case"):
+            ans["case"] = to_case(t)
+    if job.get("want_def"):
+        ans["def"] = task_def_case(t)
+    if job.get("run"):
+        cnt = Path(os.environ["VERIF_CNT"])
+        before = len(cnt.read_text()) if cnt.exists() else 0
+        out, detail = run_task(t, Path(job["run"]["cache_root"]), job["run"].get("worker", "debug"))
+        ans["out"] = out
+        ans["detail"] = detail
+        ans["executions"] = (len(cnt.read_text()) if cnt.exists() else 0) - before
+        ans["dirs"] = job_dirs(Path(job["run"]["cache_root"]))
+    return ans
 
 
 if __name__ == "__main__":
